@@ -101,6 +101,14 @@ func ledgerStrata() []stratum {
 			c.Depth, c.Fanout, c.MinStmts, c.MaxStmts = 1, 48, 1, 4
 			c.PSrcSeq, c.PDstSeq, c.PSrcCap, c.PSrcAllot, c.PDstAllot, c.PRepeat, c.PWorld, c.PAbsent, c.PSave = 70, 40, 10, 5, 10, 25, 2, 3, 20
 		}), 2},
+		{"longsrc", with(func(c *gen.LCfg) {
+			// several statements in a row that each draw from a dozen or more funded accounts
+			c.Accounts = manyAccountsL(60)
+			c.Assets = []string{"USD"}
+			c.Depth, c.Fanout, c.MinStmts, c.MaxStmts = 1, 30, 2, 4
+			c.PLongSrc, c.PRepeat, c.PWorld, c.PUnbounded, c.PBig, c.PAbsent, c.PNegBal, c.PSave = 80, 10, 3, 3, 0, 5, 0, 10
+			c.PFunded, c.PSendAll, c.PMetaStmt, c.Fanout = 85, 6, 3, 40
+		}), 2},
 		{"colons", with(func(c *gen.LCfg) {
 			// segmented names whose concatenations collide: x:y + z  ==  x + y:z
 			c.Accounts = []string{"x:y", "x", "y:z", "z", "y"}
